@@ -2,9 +2,10 @@
    Model: CL/*.v (shared pool model) + CLR/*.v (reward bookkeeping); proofs: C08/*.v.  See C08/STATUS.md. *)
 From Coq Require Import ZArith List Bool Lia.
 Import ListNotations.
-From Osmo Require Import CL.CLPool CL.CLSwap CL.CLStep CLR.Accum CLR.Rewards CLR.RSwap CLR.RStep C07.LP
+From Osmo Require Import Base.DecModel CL.CLPool CL.CLSwap CL.CLStep CLR.Accum CLR.Rewards CLR.RSwap CLR.RStep C07.LP
   C08.Proj C08.Telescope C08.View C08.Static C08.Ops C08.OpInside C08.SwapTrace C08.Crux C08.Check
-  C08.Claim C08.Conseq C08.Frame C08.Never C08.SwapWf C08.Dom C08.StaticOk C08.Final.
+  C08.Claim C08.Conseq C08.Frame C08.Never C08.SwapWf C08.Dom C08.StaticOk C08.Final
+  C07.Base C08.Paid C08.PaidOps C08.PaidSwap C08.PaidHist.
 Open Scope Z_scope.
 
 (* ---- the reward model extends the shared pool model conservatively ---- *)
@@ -183,11 +184,75 @@ Proof. exact create_zero_rec. Qed.
 Print Assumptions C08_new_position_claims_nothing.
 
 (* What is NOT proved (kept as definitions so that the gap is visible):
-   - the uptime-accumulator analogue of C08_never_in_range_earns_zero and of the claim formula (the proof would repeat
-     C08/Never.v for upd_uptime_accs / claim_uptimes; the telescoping theorem itself covers all 14 components);
-   - total_claimable_le_paid / shortfall_bounded: the conservation sum over positions (see C01) *)
+   - the uptime-accumulator analogue of C08_never_in_range_earns_zero, of the claim formula and of total_claimable_le_paid
+     (the proofs would repeat C08/Never.v and C08/Paid*.v for upd_uptime_accs / claim_uptimes / accrue_one; the telescoping
+     theorem itself covers all 14 components);
+   - shortfall_bounded (the lower bound: how much dust can stay in the account);
+   - total_claimable_le_paid in the unconditional form below: what IS proved (C08_total_claimable_le_paid_partial, further down) has
+     the explicit hypotheses of DESIGN 9.2: every claim query succeeds and the number of MulDec roundings of the history plus the
+     number of open positions stays below 2 x scaling factor (>= 2 * 10^18). *)
 Definition C08_total_claimable_le_paid_full : Prop :=
   forall sp spf ssc isc users t ops, 0 < sp -> 0 <= spf <= 500000000000000000 ->
     let rs := rrun (rinit sp spf ssc isc users t) ops in
     forall d, fold_right (fun p acc => acc + match claimable_spread rs (ps_id p) with Some c => pr_sel d c | None => 0 end) 0 (s_pos (r_base rs))
               <= pr_sel d (b_spread (s_bank (r_base rs))).
+
+
+(* ==== the spread-reward account covers what the positions can claim (C08/Paid*.v) ==== *)
+(* one swap: (growth per unit of liquidity added at each step) x (liquidity in range at that step), summed, is at most
+   (total spread charge) x (scaling factor); the account receives ceil(total spread charge) *)
+Theorem C08_swap_growth_le_fee_exact_in : forall s zfo amt evs r, Inv s -> 0 < p_scaling (s_pool s) ->
+  swap_events s true zfo amt = Some evs -> compute_out_amt_given_in s zfo true amt = Some r ->
+  0 <= evalue (s_pos s) zfo (p_tick (s_pool s)) evs <= sr_fee r * p_scaling (s_pool s).
+Proof. exact swap_in_value. Qed.
+Print Assumptions C08_swap_growth_le_fee_exact_in.
+
+Theorem C08_swap_growth_le_fee_exact_out : forall s zfo amt evs r, Inv s -> 0 < p_scaling (s_pool s) -> 0 <= amt ->
+  swap_events s false zfo amt = Some evs -> compute_in_amt_given_out s zfo true amt = Some r ->
+  0 <= evalue (s_pos s) zfo (p_tick (s_pool s)) evs <= sr_fee r * p_scaling (s_pool s).
+Proof. exact swap_out_value. Qed.
+Print Assumptions C08_swap_growth_le_fee_exact_out.
+
+(* every operation: the bookkeeping invariant PI (records = positions, total shares = total liquidity) is preserved and the potential
+   2 * (sum over positions of unclaimed * 10^18 + (growth inside - snapshot) * shares) - 2 * balance * scaling * 10^18
+   grows by at most 10^18 per MulDec rounding (two per withdrawal, one per collected position, none otherwise) *)
+Theorem C08_spread_account_step : forall rs o rs' r, PI rs -> 0 < sc_of rs -> rhandler rs o = Some (rs', r) ->
+  PI rs' /\ sc_of rs' = sc_of rs /\ forall d, Phi d rs' <= Phi d rs + pcost o * P18.
+Proof. exact paid_handler. Qed.
+Print Assumptions C08_spread_account_step.
+
+(* TOTAL_CLAIMABLE_LE_PAID, spread rewards, all histories.  PARTIAL with respect to C08_total_claimable_le_paid_full: explicit
+   hypotheses (claim queries succeed; roundings + open positions < 2 x scaling factor), and spread rewards only. *)
+Theorem C08_total_claimable_le_paid_partial : forall sp spf ssc isc users t ops d, 0 < sp -> 0 <= spf <= 500000000000000000 -> 0 < ssc ->
+  let rs0 := rinit sp spf ssc isc users t in
+  let rs := rrun rs0 ops in
+  (forall p, In p (s_pos (r_base rs)) -> claimable_spread rs (ps_id p) <> None) ->
+  hist_pcost rs0 ops + Z.of_nat (length (s_pos (r_base rs))) < 2 * ssc ->
+  zsum (claim_of d rs) (s_pos (r_base rs)) <= spread_bal d rs.
+Proof. exact total_claimable_le_paid. Qed.
+Print Assumptions C08_total_claimable_le_paid_partial.
+
+(* the crossing history of above, continued by a partial withdrawal and a collect: all claim queries succeed, three roundings,
+   and the positions can claim something *)
+Example C08_total_claimable_le_paid_nonvacuous :
+  let rs0 := rinit 0x64 0x71afd498d0000 0x2cd76fe086b93ce2f768a00b22a00000000000 0x2cd76fe086b93ce2f768a00b22a00000000000
+          [(0xc9f2c9cd04674edea40000000, 0xc9f2c9cd04674edea40000000); (0xc9f2c9cd04674edea40000000, 0xc9f2c9cd04674edea40000000);
+           (0xc9f2c9cd04674edea40000000, 0xc9f2c9cd04674edea40000000)] 0x6553f100 in
+  let ops := [RBase (OCreate 0x0 0x3b9aca00 0x3b9aca00 0x0 0x0 (-0x186a0) 0x186a0);
+              RBase (OCreate 0x1 0x989680 0x0 0x0 0x0 0x3e8 0xbb8);
+              RBase (OSwapIn 0x2 false 0x1c9c380 0x1);
+              RBase (OWithdraw 0x0 0x1 0x3e8);
+              RBase (OSwapIn 0x2 true 0x3938700 0x1);
+              RCollectSpread 0x1 [0x2];
+              RBase (OSwapIn 0x2 false 0x1c9c380 0x1)] in
+  let rs := rrun rs0 ops in
+  (forall p, In p (s_pos (r_base rs)) -> claimable_spread rs (ps_id p) <> None) /\
+  hist_pcost rs0 ops = 3 /\ length (s_pos (r_base rs)) = 2%nat /\
+  0 < zsum (claim_of true rs) (s_pos (r_base rs)) <= spread_bal true rs /\ 0 < zsum (claim_of false rs) (s_pos (r_base rs)).
+Proof.
+  intros rs0 ops rs.
+  let v := eval vm_compute in rs in assert (E : rs = v) by (vm_compute; reflexivity).
+  split.
+  - rewrite E. intros p [H|[H|[]]]; subst p; vm_compute; discriminate.
+  - split; [vm_compute; reflexivity|]. rewrite E. split; [reflexivity|]. split; [split|]; vm_compute; try reflexivity; discriminate.
+Qed.
